@@ -197,6 +197,13 @@ def _ensure_mixing(g):
 # ---------------------------------------------------------------- pure Fock
 
 
+def _detector(rng, n):
+    rec = {"$": "stochastic", "n": n, "seed": rng.randrange(100)}
+    if rng.chance(0.4):
+        rec["dark"] = _r(rng.uniform(0.02, 0.2))  # dark counts: clicks without photons are legal detector behaviour
+    return rec
+
+
 def _occupation(rng, d, total_max, fermionic=False):
     occ = [0] * d
     if fermionic:
@@ -263,7 +270,7 @@ def gen_purefock(rng, opts):
     elif term == "homodyne":
         g.add({"type": "HomodyneMeasurement", "modes": g.pick_modes(rng.randrange(1, len(g.active) + 1)), "params": {}})
     elif term == "imperfect":
-        g.add({"type": "ImperfectParticleNumberMeasurement", "modes": None, "params": {"detector_efficiency_matrix": {"$": "stochastic", "n": cutoff, "seed": rng.randrange(100)}}})
+        g.add({"type": "ImperfectParticleNumberMeasurement", "modes": None, "params": {"detector_efficiency_matrix": _detector(rng, cutoff)}})
     return {"sim": "PureFockSimulator", "d": d, "config": {"cutoff": cutoff}, "program": g.prog}
 
 
@@ -301,6 +308,35 @@ def _purefock_gate(g, cutoff, active_gates):
     raise KeyError(t)
 
 
+def gen_batch(rng):
+    """BatchPrepare([...]); gates; BatchApply([...]) on PureFockSimulator (no measurement: batch states have none)."""
+    d = rng.randrange(1, 4)
+    cutoff = rng.randrange(3, 5)
+    nb = rng.randrange(2, 4)
+    g = G(rng, "PureFockSimulator", {"adaptive": False})
+    g.active = list(range(d))
+
+    def sub_gates(n, allow_modeless):
+        out = []
+        for _ in range(n):
+            if allow_modeless and rng.chance(0.5):
+                out.append({"type": "Interferometer", "modes": None, "params": {"matrix": {"$": "haar", "n": d, "seed": rng.randrange(1000)}}})
+            else:
+                out.append(_purefock_gate(g, cutoff, True))
+        return out
+
+    preps = []
+    for _ in range(nb):
+        p = [{"type": "NumberState", "modes": None, "params": {"occupation_numbers": _occupation(rng, d, min(cutoff - 1, 2))}}] if rng.chance(0.6) else [{"type": "Vacuum", "modes": None, "params": {}}]
+        preps.append(p + sub_gates(rng.randrange(0, 2), False))
+    prog = [{"type": "BatchPrepare", "modes": None, "params": {"subprograms": {"$": "programs", "v": preps}}}]
+    prog += sub_gates(rng.randrange(0, 3), False)
+    applies = [sub_gates(rng.randrange(1, 3), True) for _ in range(nb)]
+    prog.append({"type": "BatchApply", "modes": None, "params": {"subprograms": {"$": "programs", "v": applies}}})
+    prog += sub_gates(rng.randrange(0, 2), False)
+    return {"sim": "PureFockSimulator", "d": d, "config": {"cutoff": cutoff, "seed_sequence": rng.randrange(1, 10**6)}, "program": prog, "shots": 1, "batch": True}
+
+
 # ---------------------------------------------------------------- general Fock
 
 
@@ -325,7 +361,7 @@ def gen_fock(rng, opts):
     if rng.chance(0.8):
         g.add({"type": "ParticleNumberMeasurement", "modes": None if rng.chance(0.6) else g.pick_modes(rng.randrange(1, d + 1)), "params": {}})
     else:
-        g.add({"type": "ImperfectParticleNumberMeasurement", "modes": None, "params": {"detector_efficiency_matrix": {"$": "stochastic", "n": cutoff, "seed": rng.randrange(100)}}})
+        g.add({"type": "ImperfectParticleNumberMeasurement", "modes": None, "params": {"detector_efficiency_matrix": _detector(rng, cutoff)}})
     return {"sim": "FockSimulator", "d": d, "config": {"cutoff": cutoff}, "program": g.prog}
 
 
@@ -457,6 +493,11 @@ def gen_passive(rng, opts):
             sv[rng.randrange(d)] = 1.0  # a lossless channel: the boundary of the documented [0, 1] domain
         g.add({"type": "LossyInterferometer", "modes": None, "params": {"matrix": {"$": "lossy", "n": d, "sv": sv, "seed": rng.randrange(1000)}}})
     n_meas = rng.randrange(0, 3) if d > 1 and opts.get("mid", True) and prep == "number" else 0
+    # partially distinguishable photons (one scalar overlap) through an ideal or uniformly lossy network,
+    # post-selected on some modes and measured on the others: the conditioned sampler of the passive backend
+    dist_post = prep == "dist_uniform" and loss in ("none", "uniform") and d > 1 and opts.get("mid", True) and opts.get("postselect", True) and rng.chance(0.35)
+    if dist_post:
+        n_meas = 1
     for seg in range(n_meas + 1):
         for _ in range(rng.randrange(0, 3)):
             g.add(passive_gate(g))
@@ -464,20 +505,24 @@ def gen_passive(rng, opts):
             k = rng.randrange(1, len(g.active))
             modes = g.pick_modes(k)
             what = rng.weighted([("pnm", 6), ("post", 1 if opts.get("postselect", True) and not g.n_outcomes else 0), ("imperfect", 1 if opts.get("imperfect", True) else 0)])
+            if dist_post:
+                what = "post"
             if what == "pnm":
                 g.add({"type": "ParticleNumberMeasurement", "modes": modes, "params": {}})
             elif what == "post":
                 g.add({"type": "PostSelectPhotons", "modes": modes, "params": {"photon_counts": {"$": "tuple", "v": [0 for _ in modes], "auto": True}}})
             else:
-                g.add({"type": "ImperfectParticleNumberMeasurement", "modes": modes, "params": {"detector_efficiency_matrix": {"$": "stochastic", "n": max(sum(occ) + 1, 5), "seed": rng.randrange(100)}}})
+                g.add({"type": "ImperfectParticleNumberMeasurement", "modes": modes, "params": {"detector_efficiency_matrix": _detector(rng, max(sum(occ) + 1, 5))}})
             g.measured(modes, "post" if what == "post" else "pnm", sum(occ))
     term = rng.weighted([("pnm_all", 6), ("pnm_sub", 2), ("imperfect", 1 if opts.get("imperfect", True) else 0), ("none", 1 if opts.get("allow_no_terminal") else 0)])
+    if dist_post and term in ("imperfect", "none"):
+        term = "pnm_all"
     if term == "pnm_all":
         g.add({"type": "ParticleNumberMeasurement", "modes": None if rng.chance(0.6) else sorted(g.active), "params": {}})
     elif term == "pnm_sub":
         g.add({"type": "ParticleNumberMeasurement", "modes": g.pick_modes(rng.randrange(1, len(g.active) + 1)), "params": {}})
     elif term == "imperfect":
-        g.add({"type": "ImperfectParticleNumberMeasurement", "modes": None, "params": {"detector_efficiency_matrix": {"$": "stochastic", "n": max(sum(occ) + 1, 5), "seed": rng.randrange(100)}}})
+        g.add({"type": "ImperfectParticleNumberMeasurement", "modes": None, "params": {"detector_efficiency_matrix": _detector(rng, max(sum(occ) + 1, 5))}})
     return {"sim": "PassiveSimulator", "d": d, "config": {}, "program": g.prog}
 
 
@@ -490,12 +535,22 @@ def gen_fermionic_fock(rng, opts):
     g.active = list(range(d))
     cutoff = d + 1
     occ = _occupation(rng, d, d, fermionic=True)
+    # a tight cutoff (just above the particle number) with particle-number preserving gates only: after a
+    # mid-circuit measurement that finds every particle the remaining modes live in a cutoff-1 space
+    tight = opts.get("cutoff") is None and rng.chance(0.3)
+    if tight:
+        cutoff = sum(occ) + 1
+    elif opts.get("cutoff"):
+        cutoff = opts["cutoff"]
+        tight = cutoff < d + 1
+        if tight:
+            occ = _occupation(rng, d, max(cutoff - 1, 0), fermionic=True) if cutoff > 1 else [0] * d
     g.add({"type": "NumberState", "modes": None, "params": {"occupation_numbers": occ}})
     _ensure_mixing(g)
     n_meas = rng.randrange(0, 3) if opts.get("mid", True) else 0
     for seg in range(n_meas + 1):
         for _ in range(rng.randrange(0, 3)):
-            t = rng.weighted([("passive", 4), ("ControlledPhase", 1), ("IsingXX", 1), ("Squeezing2", 1)]) if len(g.active) >= 2 else "passive"
+            t = rng.weighted([("passive", 4), ("ControlledPhase", 1), ("IsingXX", 0 if tight else 1), ("Squeezing2", 0 if tight else 1)]) if len(g.active) >= 2 else "passive"
             if t == "passive":
                 g.add(passive_gate(g, consecutive=True))
             elif t == "Squeezing2":
@@ -568,8 +623,19 @@ def finalise(subject):
         prefix.append({"type": "ParticleNumberMeasurement", "modes": ins["modes"], "params": {}})
         sub = dict(subject, program=prefix)
         try:
-            sim = spec.build_simulator(sub)
-            res = sim.execute(spec.build_program(prefix), shots=None)
+            try:
+                sim = spec.build_simulator(sub)
+                res = sim.execute(spec.build_program(prefix), shots=None)
+            except Exception:  # noqa: BLE001
+                if not any(i["type"] == "DistinguishableNumberState" for i in prefix):
+                    raise
+                # no exact mode for partially distinguishable photons: take the likeliest pattern of the same
+                # photons made indistinguishable.  Its permanent is non-zero, so some path amplitude product is
+                # non-zero, so the pattern also has positive probability for any overlap in [0, 1).
+                prefix2 = [({"type": "NumberState", "modes": i["modes"], "params": {"occupation_numbers": i["params"]["occupation_numbers"]}} if i["type"] == "DistinguishableNumberState" else i) for i in prefix]
+                sim = spec.build_simulator(dict(subject, program=prefix2))
+                res = sim.execute(spec.build_program(prefix2), shots=None)
+                pc["via"] = "indistinguishable"
             best = max(res.branches, key=lambda b: float(b.frequency))
             pc["v"] = [int(x) for x in best.outcome]
             pc["p"] = round(float(best.frequency), 6)
